@@ -103,6 +103,7 @@ func (s *SpecValidator) Validate(data interface{}) (*Result, *Result) {
 	}
 	s.spec = sd
 	s.analyzer = analysis.New(sd.Spec())
+	s.expanded = nil // never carry the expansion of a previously validated document over to this one
 
 	// Raw spec unmarshalling errors
 	var obj interface{}
